@@ -26,6 +26,7 @@ def consts_under(t, ops):
 def run(ck):
     ck.rule('C14.f', 'sink_put_chunk, through which the *_to_sink encoders emit, offers exactly the octets of the region it was given, in order, retrying in place (C17.a-d re-evaluated)')
     ck.rule('C14.e', 'the buffer and chunk-list source drivers the octet-wise decoder reads through deliver every unread octet in order and report the end of data only when no chunk is left (C17.g, C17.h re-evaluated): buffer decoder and source decoder see the same octets')
+    ck.rule('C14.g', 'decoding from a Source is a function of the octets it delivers: no decoder keeps progress of one value in the Source object beyond the return that ends it (resuming after -EINTR / -EAGAIN excepted)')
     ck.rule('C14.a', 'varint_decode: every octet read buf[offset+i] is proved inside the buffer (offset+i+1 <= used/size) by the path guards; failing paths leave the buffer untouched; offset advances by exactly the consumed count')
     ck.rule('C14.b', 'sibling agreement: buffer decoder and source decoder use the same data mask, shift step, terminator test, bound and error code; encoder and length query the same shift step / stop test / counting')
     ck.rule('C14.c', 'constants: 7 data bits, mask 0x7f, continuation 0x80, max octets ceil(32/7)=5 and ceil(64/7)=10 (compiler-evaluated)')
@@ -52,6 +53,7 @@ def run(ck):
     rule_b(ck, u, eng, P)
     rule_c(ck, u)
     rule_d(ck, u)
+    rule_source_state(ck, u, eng)
     from .common import reevaluate
     reevaluate(ck, 'C14.f', 'c17', lambda r, k: r in ('C17.a', 'C17.b', 'C17.c', 'C17.d') and k.startswith(('sink_put_chunk', 'sink_adapt')),
                'the *_to_sink encoders hand their scratch buffer to sink_put_chunk: exactly its used octets reach the sink, from its start, whatever the driver answers')
@@ -322,6 +324,85 @@ def rule_b(ck, u, eng, P):
             ck.verdict(bool(ok), 'C14.b', fn + ':counter', cast.where(f),
                        'the result counts one per emitted octet (1 + completed iterations)' if ok else
                        'octet counter wrong: %s' % why)
+
+
+def rule_source_state(ck, u, eng):
+    """C14.g: a decoder that reads from a Source keeps nothing of ONE value in the Source object beyond the call that
+    finished it.  The Source is the driver's object; the decoders use it through source_get_octet only.  If a decoder
+    does keep progress there (to resume after a driver's -EINTR / -EAGAIN), that progress is state across calls, and
+    every return that ends the item - success, -EILSEQ, a hard error - has to leave it as the source constructors set it;
+    otherwise the next value read from the same Source starts from the remains of this one (buffer decoder and source
+    decoder then disagree on the same octets)."""
+    from .. import cast as _cast
+    from .common import _strip_cast as strip_cast
+    RETRY = {-4, -11}
+    fns = []
+    for fn, fd in sorted(u.functions.items()):
+        if not (_cast.node_file(fd) or '').endswith('variable-length-integer.c'):
+            continue
+        for prm in u.params(fn):
+            if 'Source' in _cast.qual_type(prm) and '*' in _cast.qual_type(prm):
+                fns.append((fn, prm['name']))
+    nst = 0
+    bad = None
+    ctor = None
+    for fn, pname in fns:
+        try:
+            ps = eng.paths(fn)
+        except (sym.Unsupported, sym.PathLimit) as e:
+            ck.broken('C14.g', fn + ':source-state', cast.where(u.fn(fn)), 'path enumeration: %s' % e)
+            continue
+        root = ('v', pname)
+        fields = set()
+        for p in ps:
+            for e in p.stores():
+                if isinstance(e.name, tuple) and sym.rooted_at(e.name, root) and e.name != root:
+                    fields.add(e.name)
+        if not fields:
+            continue
+        nst += len(fields)
+        if ctor is None:
+            ctor = {}
+            try:
+                uc = cast.load('src/endpoints/core.c')
+                ce = sym.Engine(uc, sizeof=sym.unit_sizeofs('src/endpoints/core.c', uc))
+                for cf in ('octet_source_init', 'chunk_source_init'):
+                    for cp in ce.paths(cf):
+                        for e in cp.stores():
+                            ctor.setdefault(cf, {})[fmt(sym.substitute(e.name, {('v', 'instance'): ('v', '@')}))] = e.args[0]
+            except Exception as e:      # noqa: BLE001
+                ck.broken('C14.g', 'source-constructors', 'src/endpoints/core.c', str(e))
+                ctor = {}
+        for p in ps:
+            if p.end != 'return':
+                continue
+            r = strip_cast(p.ret) if p.ret is not None else None
+            retry = False
+            if r is not None:
+                if sym.is_c(r) and r[1] in RETRY:
+                    retry = True
+                else:
+                    eqs = [c[3][1] for c in p.cond_terms() if c[0] == 'cmp' and c[1] == '==' and strip_cast(c[2]) == r and sym.is_c(c[3])]
+                    retry = bool(eqs) and all(v in RETRY for v in eqs)
+            if retry:
+                continue
+            for f in sorted(fields, key=fmt):
+                v = strip_cast(sym.mem_read(p.mem, f))
+                if v == f and not any(lm.get(f) for nd, lm in p.loops):
+                    continue                        # untouched on this path and never written in a loop before it
+                kf = fmt(sym.substitute(f, {root: ('v', '@')}))
+                want = [c_[kf] for c_ in ctor.values() if kf in c_]
+                if not want or not all(w == want[0] for w in want):
+                    bad = bad or ('%s keeps %s in the Source object, a field the source constructors do not set: its content is whatever an earlier item left' % (fn, fmt(f)))
+                elif v != want[0]:
+                    bad = bad or ('%s returns %s with %s = %s left in the Source object (the constructors set %s): the item is over - accepted, refused or failed - but its '
+                                  'progress stays, and the next value decoded from this Source starts from it; buffer decoder and source decoder give different answers for '
+                                  'the same octets from then on' % (fn, fmt(p.ret), fmt(f), fmt(v), fmt(want[0])))
+    if not fns:
+        return ck.broken('C14.g', 'source-state', UNIT, 'no decoder taking a Source found (anchor vanished)')
+    ck.verdict(bad is None, 'C14.g', 'source-state', UNIT,
+               ('the decoders keep nothing in the Source object (%d functions taking a Source)' % len(fns)) if (bad is None and nst == 0) else
+               ('progress kept in the Source object (%d fields) is back to its constructed value on every return that ends an item' % nst) if bad is None else bad)
 
 
 def rule_c(ck, u):
